@@ -9,6 +9,7 @@ Meaning table of the SDE slots (checked against ForwardSDE's own default composi
   dg_ga_jvp_column_sum(t,y,a) = DGGA[t,y](a)                           (linear in a)
 Brownian motion: bm(ta,tb) = W[ta,tb]; return_U adds U[ta,tb]; return_A adds A[ta,tb].
 """
+import ast
 from fractions import Fraction
 
 from .. import nf
@@ -173,6 +174,26 @@ def solver_obj(model, cls, sde, bm, options=None, extra_attrs=None):
     attrs = {"sde": sde, "bm": bm, "options": options if options is not None else {},
              "dt": nf.sym("self.dt", True), "adaptive": False, "rtol": nf.sym("self.rtol", True),
              "atol": nf.sym("self.atol", True), "dt_min": nf.sym("self.dt_min", True)}
+    # slots a subclass constructor initialises to a literal (a cache that starts as None, a counter that starts at 0):
+    # the abstract object is not built by running the constructors, so those are read off them
+    for c in model.mro(cls):
+        init = c.methods.get("__init__")
+        if init is None or c.name == "BaseSDESolver":
+            continue
+        for st in init.node.body:
+            if isinstance(st, ast.Assign) and len(st.targets) == 1 and isinstance(st.targets[0], ast.Attribute) \
+                    and isinstance(st.targets[0].value, ast.Name) and st.targets[0].value.id == "self" \
+                    and st.targets[0].attr not in attrs:
+                try:
+                    v = ast.literal_eval(st.value)
+                except (ValueError, SyntaxError):
+                    continue
+                if isinstance(v, bool) or v is None or isinstance(v, str):
+                    attrs[st.targets[0].attr] = v
+                elif isinstance(v, (int, float)):
+                    attrs[st.targets[0].attr] = nf.frac(v)
+                elif isinstance(v, (list, dict, tuple, set)) and not v:
+                    attrs[st.targets[0].attr] = type(v)()
     attrs.update(extra_attrs or {})
     return Obj(f"solver:{cls.name}", cls=cls, attrs=attrs)
 
